@@ -161,8 +161,8 @@ def _liouville_derivative(dt: Coefficients, propagators: ndarray, basis: Basis, 
     # omega_i - omega_j
     omega_diff = eigvals[:, :, None] - eigvals[:, None, :]
     dt_broadcast = np.broadcast_to(dt[:, None, None], omega_diff.shape)
-    # mask = omega_diff == 0
-    mask = np.broadcast_to(np.eye(d, dtype=bool), omega_diff.shape)
+    # Degenerate (and numerically degenerate) pairs of eigenvalues get the limit value dt
+    mask = np.abs(omega_diff*dt_broadcast) < 1e-7
     A_mat = np.empty(omega_diff.shape, dtype=complex)
     A_mat[mask] = dt_broadcast[mask]
     A_mat[~mask] = 1j*(1 - util.cexp(omega_diff[~mask]*dt_broadcast[~mask])) / omega_diff[~mask]
